@@ -168,7 +168,18 @@ def stage_parser(ctx: Ctx) -> Func:
             if isinstance(n, ast.Call) and any(isinstance(a, ast.Name) and a.id == "dds_stages" for a in n.args):
                 fs, _ = prog.callees(f, n, ctx._types)
                 fs = [g for g in fs if g.module.name.startswith("dds") and "dds_stages" not in g.params[1:]]
-                cand = [g for g in fs if any(isinstance(x, ast.Raise) for x in g.own_nodes()) or g.nested]
+                def _raises(g: Func, depth: int = 0) -> bool:
+                    # a refusal in the function, in a nested helper, or in a package helper it calls (the per-element check may be a function of its own)
+                    if any(isinstance(x, ast.Raise) for x in g.own_nodes()) or g.nested:
+                        return True
+                    if depth < 1:
+                        for c_ in g.own_nodes():
+                            if isinstance(c_, ast.Call):
+                                hs, _ = prog.callees(g, c_, ctx._types)
+                                if any(h.module is g.module and h is not g and _raises(h, depth + 1) for h in hs):
+                                    return True
+                    return False
+                cand = [g for g in fs if _raises(g)]
                 if len(cand) == 1:
                     c["stage_parser"] = cand[0]
                     return cand[0]
